@@ -276,6 +276,12 @@ def check_call(contract, classes, args, fn=None, extra=None, label=""):
                     if not _eq(getattr(self_obj, f), getattr(old_env["self"], f), 0):
                         failures.append(f"frame:self.{f} changed")
     else:
+        if exc_name not in raises:
+            # a subclass of a contracted exception counts as that exception
+            for k_ in raises:
+                if any(b.__name__ == k_ for b in type(exc_obj).__mro__):
+                    exc_name = k_
+                    break
         if exc_name in raises:
             if not must[exc_name]:
                 failures.append(f"raises#{exc_name}.only: raised although the condition did not hold")
